@@ -25,7 +25,7 @@ RULE = ("seeded sampling over group {legvec (+abscissa spy), poly (exact rationa
         "inf (closed form on infinite ranges), tuple (component-wise reference rule)} x n x interval x limit form x dtype x integrand style "
         "{tensor constants, pure python arithmetic / torch functions of x}; non-trivial = the call returned, the expected integral is non-zero "
         "(or, for legvec, the degree-2n entry of the reference rule is >= 0.03*|xu-xl|) and every comparison of the case was evaluated")
-RULE += ('; group extra (vf/c12_extra.py): limits of another dtype than the integrand (float32 / int64 / int32 tensors, python ints), integrands returning a tensor they do not own')
+RULE += ('; group extra (vf/c12_extra.py): limits of another dtype than the integrand (float32 / int64 / int32 tensors, python ints), integrands returning a tensor they do not own, tuple / list integrands whose components differ in dtype (kind mixtuple)')
 MIN_NONTRIVIAL = {"quick": 700, "thorough": 9000}
 ASSUMPTIONS = [
     "finite intervals: length 1e-3..1e3, max(|xl|,|xu|)/|xu-xl| <= 30 (float64) / <= 1 (float32), xl != xu",
@@ -44,10 +44,10 @@ ASSUMPTIONS = [
 ]
 BUDGET = {"quick": {"worker_timeout": 600, "case_timeout": 60}, "thorough": {"worker_timeout": 3000, "case_timeout": 120}}
 REQUIRED_COUNTERS = {
-    "quick": {"extra_limdtype_compared": 80, "extra_alias_compared": 60, "extra_bckopts_compared": 25, "extra_inf32_compared": 25, "legvec_exact_entries_checked": 5000, "abscissae_compared": 5000, "form_num": 50, "form_int": 10, "form_t0": 50, "form_t1": 50,
+    "quick": {"extra_limprec_compared": 70, "extra_limprec_number_lower": 15, "extra_mixtuple_compared": 100, "extra_mixtuple_lowprec_first": 50, "extra_mixtuple_f64_components_checked": 100, "extra_mixtuple_alone_compared": 200, "extra_limdtype_compared": 80, "extra_alias_compared": 60, "extra_bckopts_compared": 25, "extra_inf32_compared": 25, "legvec_exact_entries_checked": 5000, "abscissae_compared": 5000, "form_num": 50, "form_int": 10, "form_t0": 50, "form_t1": 50,
               "form_mixed": 50, "style_pure_num_calls": 30, "inf_both": 10, "inf_half": 10, "tuple_components_checked": 50,
               "poly_linearity_checked": 50, "poly_swap_checked": 50, "poly_additivity_checked": 50, "float32_cases": 30},
-    "thorough": {"extra_limdtype_compared": 800, "extra_alias_compared": 600, "extra_bckopts_compared": 250, "extra_inf32_compared": 250, "legvec_exact_entries_checked": 50000, "abscissae_compared": 50000, "form_num": 500, "form_int": 100, "form_t0": 500,
+    "thorough": {"extra_limprec_compared": 700, "extra_limprec_number_lower": 150, "extra_mixtuple_compared": 1000, "extra_mixtuple_lowprec_first": 500, "extra_mixtuple_f64_components_checked": 1000, "extra_mixtuple_alone_compared": 2000, "extra_limdtype_compared": 800, "extra_alias_compared": 600, "extra_bckopts_compared": 250, "extra_inf32_compared": 250, "legvec_exact_entries_checked": 50000, "abscissae_compared": 50000, "form_num": 500, "form_int": 100, "form_t0": 500,
                  "form_t1": 500, "form_mixed": 500, "style_pure_num_calls": 300, "inf_both": 100, "inf_half": 100,
                  "tuple_components_checked": 500, "poly_linearity_checked": 500, "poly_swap_checked": 500, "poly_additivity_checked": 500,
                  "float32_cases": 300},
